@@ -30,6 +30,18 @@ def run(check, tier):
         if res["disagree"] and not res["oracle"]:
             check.break_("correspondence suite `jobs`: " + res["disagree"][0]["what"], {"input": c})
     check.extra["jobs_run"] = njobs
+    # named-paths runs on one reused CsvPaths instance (run coordination, run time, results of earlier runs stay on the instance)
+    gn = 120 if tier == "quick" else 4000
+    for res in run_cases("jobs_suite", "case_group_history", [S.gen_group_history(check.seed, i) for i in range(gn)], chunk=4):
+        if "infra_error" in res:
+            check.infra.append(res["infra_error"] + res.get("trace", "")[-700:])
+            continue
+        check.evaluations += 1
+        check.count("group_histories")
+        if res["nontrivial"]:
+            check.nontriv(["group-history", res["case"]["groups"], res["case"]["runs"]])
+        for o in res["oracle"]:
+            check.violation(o["what"], {"input": res["case"], "oracle": [o]})
     # the header cache by itself against Model.Cache.store / load
     hn = 400 if tier == "quick" else 20000
     for res in run_cases("jobs_suite", "case_hdrcache", [S.gen_hdr(check.seed, i) for i in range(hn)], chunk=50):
